@@ -745,8 +745,7 @@ Proof.
   split.
   - intros fs cf l H. unfold load_config in H. destruct (cf_opts cf); [|discriminate].
     eapply mapM_Forall2; [|exact H]. intros sec cmds Hc. simpl in Hc.
-    destruct (cs_opts sec); [eapply mapM_length; exact Hc|].
-    destruct section_options_refused; [discriminate | eapply mapM_length; exact Hc].
+    destruct (cs_opts sec); [eapply mapM_length; exact Hc | first [discriminate Hc | eapply mapM_length; exact Hc]].
   - intros p cf H. unfold parse_program in H.
     destruct (run_blocks (p_extern p) st0 (p_blocks p)) as [st|k]; simpl in H; [|discriminate].
     destruct (mapM _ (p_sections p)) as [secs|k] eqn:E; simpl in H; [|discriminate]. inversion H. simpl.
